@@ -51,7 +51,7 @@ def main(argv: List[str]) -> int:
                                                        (None, {'comment_place': 'both', 'comment_style': 'block'})]
         for fseed, pinned in plan:
             tid += 1
-            items[tid] = {'tid': tid, 'doc': doc, 'allow': False, 'want': 'model', 'fseed': fseed, 'pinned': pinned,
+            items[tid] = {'tid': tid, 'doc': doc, 'allow': tid % 3 == 0, 'want': 'model', 'fseed': fseed, 'pinned': pinned,
                           'seed': seed, 'gen': 'Commented', 'variant': 'capture'}
     # inertness: one comment at every gap (small documents), several random ones (all documents)
     small = [x for x in ds if nlines(x[1], None, {}) <= 30][:doccheck.budget(12, 150)]
@@ -61,7 +61,7 @@ def main(argv: List[str]) -> int:
             for kind in ('own', 'trail', 'mid'):
                 for text in r.sample(NOISE if kind != 'mid' else MID_NOISE, doccheck.budget(2, 4)):
                     tid += 1
-                    items[tid] = {'tid': tid, 'doc': doc, 'allow': False, 'want': 'inert', 'fseed': None, 'pinned': {},
+                    items[tid] = {'tid': tid, 'doc': doc, 'allow': tid % 3 == 0, 'want': 'inert', 'fseed': None, 'pinned': {},
                                   'seed': seed, 'gen': 'Commented', 'variant': 'inert-every-gap', 'noise': [[kind, pos, text]]}
     for seed, doc in ds:
         for k in range(doccheck.budget(3, 8)):
@@ -69,7 +69,7 @@ def main(argv: List[str]) -> int:
             noise = [[k, r.randrange(10 ** 6), r.choice(NOISE if k != 'mid' else MID_NOISE)]
                      for k in (r.choice(['own', 'trail', 'mid', 'mid']) for _ in range(r.randint(1, 6)))]
             tid += 1
-            items[tid] = {'tid': tid, 'doc': doc, 'allow': False, 'want': 'inert', 'fseed': fseed, 'pinned': {},
+            items[tid] = {'tid': tid, 'doc': doc, 'allow': tid % 3 == 0, 'want': 'inert', 'fseed': fseed, 'pinned': {},
                           'seed': seed, 'gen': 'Commented', 'variant': 'inert-random', 'noise': noise}
     res = docs.run_items(list(items.values()), rep, 'C14')
     doccheck.judge('C14', rep, res, items, lambda it: True)
